@@ -47,6 +47,11 @@ LEVEL_NOTE = "float64, XLA CPU single thread; the oracle is the same code in ano
 def generate(rng, tier, index):
     spec = rp.rand_scene(rng, T=(5, 10), shape=(4, 6), pml=(2, 3), bloch_p=0.25, p_nonuniform=0.4, n_sources=(1, 2), max_plane=1, exact=False)
     T = spec["steps"]
+    # every scene also carries one area-weighted (reduced) flux plane of >= 2 x 2 cells: its face-area weights are
+    # orientation-specific code (one branch per normal axis), seen by all three relabelled replicas
+    d = specgen.rand_detector(rng, "dflux", spec["shape"], T, kinds=("poynting",), switch=True)
+    d["reduce"], d["exact"] = True, False
+    spec["detectors"].append(d)
     spec["init_seed"] = int(rng.integers(0, 2**31)) if rng.uniform() < 0.5 else None
     spec["loop"] = {"replica": int(rng.integers(0, 3)), "cut": int(rng.integers(1, T)) if rng.uniform() < 0.7 else None}
     return spec
